@@ -6,12 +6,23 @@ def lookup(prop):
     if prop == "C18":
         from harness import check_c18b
         checks_core.EXTRAS["C18"] = check_c18b.run_signum
+    def _chain(first, prefixes, nq, nt):
+        def run(verdict, tier, seed, scratch):
+            from harness import check_reload
+            cov = dict(first(verdict, tier, seed, scratch) or {})
+            sched = check_reload.run_reload_sched(verdict, tier, seed, scratch, prefixes, n_quick=nq, n_thorough=nt,
+                                                  conf_quick=30, conf_thorough=400)
+            cov["reload_schedules"] = sched
+            for k in ("traces_validated_against_impl", "states", "transitions"):
+                cov[k] = int(cov.get(k, 0)) + int(sched.get(k, 0))
+            return cov
+        return run
     if prop == "C01":
         from harness import check_c15reload
-        checks_core.EXTRAS["C01"] = check_c15reload.run_reload_c01
+        checks_core.EXTRAS["C01"] = _chain(check_c15reload.run_reload_c01, ("C01_",), 80, 2000)
     if prop == "C15":
         from harness import check_c15reload
-        checks_core.EXTRAS["C15"] = check_c15reload.run_reload_dir
+        checks_core.EXTRAS["C15"] = _chain(check_c15reload.run_reload_dir, ("C15_",), 80, 2000)
     if prop == "C13":
         from harness import check_c13a
         checks_core.EXTRAS["C13"] = check_c13a.run_cmdline
